@@ -182,6 +182,15 @@ func c16Retire(c *Ctx) {
 	}
 	c.Floor(R, "path-probing removals", nd, 2)
 	add := c.fn("", M, "add")
+	// path-probing IDs are retired for ANY Retire Prior To above their sequence number, also one that
+	// does not exceed highestRetired (rotation advances highestRetired past parked probing IDs)
+	hrF := c.fld("", M, "highestRetired")
+	for _, in := range findInstrs(add, isDelPP) {
+		site := in
+		w := (&Cut{Fn: add, Target: func(i ssa.Instruction) bool { return i == site }, Edge: EdgeRel(Rel{Op: token.GTR, X: Load(rpt), Y: Load(hrF)}, false)}).Run()
+		c.Check(w != nil, R, "reach:path-probing retirement not gated by RetirePriorTo > highestRetired", c.P.InstrPos(in),
+			"the path-probing loop must be reachable without passing the `RetirePriorTo > highestRetired` edge")
+	}
 	// (b) queue entries below Retire Prior To
 	sb := edgeSuccs(add, Rel{Op: token.LSS, X: entrySeq, Y: Load(rpt)})
 	// the pathProbing loop has the same comparison; both lead to retire calls
